@@ -41,8 +41,8 @@ import time
 PROPERTY = "C35"
 ROOT = os.environ.get("VERIF_ROOT", "/verif")
 REPO = os.path.realpath(os.environ.get("VERIF_REPO", "/repo"))
-TARGET_BASE = os.environ.get("VERIF_FEAT_TARGET_BASE", "/verif/.target")
-RUN_BASE = os.environ.get("VERIF_FEAT_RUN_DIR", "/verif/.run/feat")
+TARGET_BASE = os.environ.get("VERIF_FEAT_TARGET_BASE", os.path.join(ROOT, ".target"))
+RUN_BASE = os.environ.get("VERIF_FEAT_RUN_DIR", os.path.join(ROOT, ".run", "feat"))
 SEED_DIR = os.path.join(TARGET_BASE, "feat-seed")
 PID = os.getpid()
 
